@@ -185,6 +185,12 @@ func histWorker(req N) (resp N) {
 	for j := 1; j <= nMods; j++ {
 		lib += fmt.Sprintf("func do_imp%d() { n := bump(); poke(); import m%d; return n * 1000 + m%d.val - 6 }\n", j, j, j)
 	}
+	// one code object used by every "RisorCall" invocation (risor.Call with WithVM runs it, then calls a function of it);
+	// do_rcnormal depends on top-level state that each run initialises
+	rcCode, rcErr := compileSnippet(lib+"calls := 0\nfunc do_rcnormal() { calls += 1; n := bump(); poke(); return n * 1000 + calls }\n", gnames)
+	if rcErr != nil {
+		return N{"k": "nolib", "msg": rcErr.Error()}
+	}
 	libCode, err := compileSnippet(lib, gnames)
 	if err != nil {
 		return N{"k": "nolib", "msg": err.Error()}
@@ -238,6 +244,12 @@ func histWorker(req N) (resp N) {
 		if isImport {
 			fnKey, src = fmt.Sprintf("imp%d", modIdx), impSnippet(modIdx)
 		}
+		var callArgs []object.Object
+		if kind == "badargs" {
+			// a call with one argument too many: refused before the function runs
+			fnKey, src = "normal", "n := bump()\npoke()\ndo_normal(1)"
+			callArgs = []object.Object{object.NewInt(1)}
+		}
 		escaped := ""
 		if inv["api"] == "Call" {
 			func() {
@@ -246,8 +258,28 @@ func histWorker(req N) (resp N) {
 						escaped = fmt.Sprint(r)
 					}
 				}()
-				val, rerr = machine.Call(ctxs[i], fns[fnKey], nil)
+				val, rerr = machine.Call(ctxs[i], fns[fnKey], callArgs)
 			}()
+		} else if inv["api"] == "RisorCall" {
+			name := "do_" + fnKey
+			if kind == "normal" {
+				name = "do_rcnormal"
+			}
+			func() {
+				defer func() {
+					if r := recover(); r != nil {
+						escaped = fmt.Sprint(r)
+					}
+				}()
+				val, rerr = risor.Call(ctxs[i], rcCode, name, callArgs, risor.WithVM(machine), risor.WithGlobals(globals))
+			}()
+			for _, k := range fnNames {
+				if o, gerr := machine.Get("do_" + k); gerr == nil {
+					if fn, ok := o.(*object.Function); ok {
+						fns[k] = fn
+					}
+				}
+			}
 		} else {
 			// RunCode replaces the loaded code, so every snippet carries the function library with it and
 			// later Call invocations use the functions of the code that is loaded then (as risor.Call does)
@@ -300,6 +332,9 @@ func histWorker(req N) (resp N) {
 			obs = "index error"
 		default:
 			obs = "error"
+		}
+		if kind == "badargs" && inv["api"] != "RunCode" && atomic.LoadInt64(&counter) == before {
+			atomic.AddInt64(&counter, 1) // the refused call never reached bump()
 		}
 		if atomic.LoadInt64(&counter) != before+1 {
 			obs += "+effects"
